@@ -18,10 +18,11 @@ TraceLog == ndJsonDeserialize("trace.ndjson")
 VARIABLES l,      \* position of the next event
           cnt,    \* true event counts of the current measurement period (metrics log, C19)
           pcnt,   \* Prometheus label set (as text) -> true event count since the BrokerContext was created
-          ips,    \* proxy type -> set of addresses seen in the current measurement period
+          ips,    \* proxy type -> set of <<address, country>> seen in the current measurement period
+          nats,   \* set of <<address, NAT class>> polled in the current measurement period
           jadds,  \* <<time, address>> of every registration of the current scenario (distinct-IP journal, C19)
           mok     \* the counts above are known (FALSE after an unexplained scenario, until the next new BrokerContext)
-tvars == <<vars, l, cnt, pcnt, ips, jadds, mok>>
+tvars == <<vars, l, cnt, pcnt, ips, jadds, nats, mok>>
 
 Ev == TraceLog[l]
 Is(e) == l <= Len(TraceLog) /\ TraceLog[l].ev = e
@@ -29,16 +30,17 @@ Adv == l' = l + 1 /\ (IF TraceLog[l].ev = "reset" THEN TRUE ELSE UNCHANGED mok)
 LockOK == RequireLocked => Ev.locked = TRUE
 
 CntZero == [idle |-> 0, denied |-> 0, deniedR |-> 0, deniedU |-> 0, matched |-> 0, withRelay |-> 0, withoutRelay |-> 0]
-Keep == UNCHANGED <<cnt, pcnt, ips, jadds>>
+Keep == UNCHANGED <<cnt, pcnt, ips, jadds, nats>>
 Empty == [x \in {} |-> 0]
 Bump(f, k) == IF k \in DOMAIN f THEN [f EXCEPT ![k] = @ + 1] ELSE f @@ (k :> 1)
 PutIn(f, k, x) == IF k \in DOMAIN f THEN [f EXCEPT ![k] = @ \cup {x}] ELSE f @@ (k :> {x})
 KnownTypes == {"standalone", "webext", "badge", "iptproxy"}
+NatClass(n) == IF n \in {"restricted", "unrestricted"} THEN n ELSE "unknown"
 ProxyPollKey(nat, status) == "prom:rounded_proxy_poll_total{nat=" \o nat \o ",status=" \o status \o "}"
 ClientPollKey(nat, status) == "prom:rounded_client_poll_total{nat=" \o nat \o ",status=" \o status \o "}"
 RelayKey(with, nat, type) == "prom:rounded_proxy_poll_" \o (IF with THEN "with" ELSE "without") \o "_relay_url_extension_total{nat=" \o nat \o ",type=" \o type \o "}"
 
-TInit == Init /\ l = 1 /\ cnt = CntZero /\ pcnt = Empty /\ ips = Empty /\ jadds = {} /\ mok = TRUE /\ TLCSet(1, 1)
+TInit == Init /\ l = 1 /\ cnt = CntZero /\ pcnt = Empty /\ ips = Empty /\ jadds = {} /\ nats = {} /\ mok = TRUE /\ TLCSet(1, 1)
 
 TReset ==
   /\ Is("reset")
@@ -52,9 +54,9 @@ TReset ==
   /\ asnow' = [a \in Answers |-> None] /\ abuf' = [p \in Proxies |-> None]
   /\ ptimer' = [p \in Proxies |-> -1] /\ ctimer' = [c \in Clients |-> -1]
   /\ presp' = [p \in Proxies |-> None] /\ cresp' = [c \in Clients |-> None] /\ aresp' = [a \in Answers |-> None]
-  /\ (IF Ev.fresh THEN cnt' = CntZero /\ pcnt' = Empty /\ ips' = Empty
-      ELSE IF Ev.rollover THEN cnt' = CntZero /\ ips' = Empty /\ UNCHANGED pcnt
-      ELSE UNCHANGED <<cnt, pcnt, ips>>)
+  /\ (IF Ev.fresh THEN cnt' = CntZero /\ pcnt' = Empty /\ ips' = Empty /\ nats' = {}
+      ELSE IF Ev.rollover THEN cnt' = CntZero /\ ips' = Empty /\ nats' = {} /\ UNCHANGED pcnt
+      ELSE UNCHANGED <<cnt, pcnt, ips, nats>>)
   /\ jadds' = {}
   /\ mok' = (IF Ev.fresh THEN TRUE ELSE IF Ev.resync THEN FALSE ELSE mok)
   /\ Adv
@@ -65,7 +67,8 @@ TAdd ==
   /\ ProxyRegister(Ev.p, Ev.nat, Ev.loadwire, Ev.p)      \* the heap order is judged on the self-reported count
   /\ cnt' = (IF Ev.relayext THEN [cnt EXCEPT !.withRelay = @ + 1] ELSE [cnt EXCEPT !.withoutRelay = @ + 1])
   /\ pcnt' = Bump(pcnt, RelayKey(Ev.relayext, Ev.nat, Ev.ptype))
-  /\ ips' = PutIn(ips, Ev.ptype, Ev.addr)
+  /\ ips' = PutIn(ips, Ev.ptype, <<Ev.addr, Ev.cc>>)       \* the country is a function of the address (test GeoIP tables)
+  /\ nats' = nats \cup {<<Ev.addr, NatClass(Ev.nat)>>}
   /\ jadds' = jadds \cup {<<Ev.t, Ev.addr>>}
   /\ Adv
 
@@ -81,7 +84,7 @@ TMatch ==
                                  !.deniedR = @ + (IF Ev.nat = "unrestricted" THEN 0 ELSE 1)]
            /\ pcnt' = Bump(pcnt, ClientPollKey(Ev.nat, "denied"))
       ELSE UNCHANGED <<cnt, pcnt>>)
-  /\ UNCHANGED <<ips, jadds>> /\ Adv
+  /\ UNCHANGED <<ips, jadds, nats>> /\ Adv
 
 TOfferGate == Is("c.offer") /\ cpc[Ev.c] = "sendOffer" /\ claimed[Ev.c] = Ev.p /\ UNCHANGED vars /\ Keep /\ Adv
 
@@ -128,7 +131,7 @@ TPResp ==
                            /\ presp'[Ev.p].relay = Ev.relay)
   /\ cnt' = [cnt EXCEPT !.idle = @ + (IF Ev.kind = "nomatch" THEN 1 ELSE 0)]
   /\ pcnt' = Bump(pcnt, ProxyPollKey(pnat[Ev.p], IF Ev.kind = "nomatch" THEN "idle" ELSE "matched"))
-  /\ UNCHANGED <<ips, jadds>>
+  /\ UNCHANGED <<ips, jadds, nats>>
   /\ Adv
 
 (* The hooks "a.sent" / "a.dropped" run after the non-blocking send, when its
@@ -149,7 +152,7 @@ TCAnswer ==
   /\ cresp'[Ev.c].kind = "answer" /\ cresp'[Ev.c].answer = Ev.a
   /\ cnt' = [cnt EXCEPT !.matched = @ + 1]
   /\ pcnt' = Bump(pcnt, ClientPollKey(EffNat(Ev.c), "matched"))
-  /\ UNCHANGED <<ips, jadds>>
+  /\ UNCHANGED <<ips, jadds, nats>>
   /\ Adv
 TCTimeout == Is("c.timeout") /\ ClientTimerFire(Ev.c) /\ Keep /\ Adv
 TCPre == Is("c.precleanup") /\ cpc[Ev.c] = "cleanup" /\ claimed[Ev.c] = Ev.p /\ UNCHANGED vars /\ Keep /\ Adv
@@ -219,6 +222,13 @@ TEnd ==
 CardOf(t) == IF t \in DOMAIN ips THEN Cardinality(ips[t]) ELSE 0
 RECURSIVE SumCards(_)
 SumCards(S) == IF S = {} THEN 0 ELSE LET t == CHOOSE x \in S : TRUE IN Cardinality(ips[t]) + SumCards(S \ {t})
+Seen == UNION {ips[t] : t \in DOMAIN ips}
+Countries == {x[2] : x \in Seen}
+RECURSIVE CcSum(_, _)
+CcSum(S, c) == IF S = {} THEN 0 ELSE LET t == CHOOSE x \in S : TRUE IN Cardinality({x \in ips[t] : x[2] = c}) + CcSum(S \ {t}, c)
+CcCount(c) == CcSum(DOMAIN ips, c)
+AnyNat(k) == {x[1] : x \in {y \in nats : y[2] = k}}
+OnlyNat(k) == {a \in AnyNat(k) : \A y \in nats : y[1] = a => y[2] = k}
 MetricsRight(m) ==
   /\ m["log:snowflake-idle-count"] = Ceil8(cnt.idle)
   /\ m["log:client-denied-count"] = Ceil8(cnt.denied)
@@ -231,6 +241,14 @@ MetricsRight(m) ==
   /\ \A k \in DOMAIN pcnt : k \in DOMAIN m /\ m[k] = Ceil8(pcnt[k])
   /\ \A t \in KnownTypes : m["log:snowflake-ips-" \o t] = CardOf(t)
   /\ m["log:snowflake-ips-total"] = SumCards(DOMAIN ips)
+  \* per-country figures: each address once per proxy type, under the country the tables give it
+  /\ {<<m.cc[i].c, m.cc[i].n>> : i \in 1..Len(m.cc)} = {<<c, CcCount(c)>> : c \in Countries}
+  /\ Len(m.cc) = Cardinality(Countries)
+  \* per-NAT figures: an address that only ever polled with one NAT class this period is counted
+  \* under it; no figure counts an address that never polled with that class
+  /\ \A k \in {"restricted", "unrestricted", "unknown"} :
+        /\ m["log:snowflake-ips-nat-" \o k] >= Cardinality(OnlyNat(k))
+        /\ m["log:snowflake-ips-nat-" \o k] <= Cardinality(AnyNat(k))
 TMetrics ==
   /\ Is("metrics")
   /\ (mok => MetricsRight(Ev.m))
@@ -238,7 +256,7 @@ TMetrics ==
       THEN /\ cnt' = [cnt EXCEPT !.denied = @ + 2, !.deniedR = @ + 1, !.deniedU = @ + 1]
            /\ pcnt' = Bump(Bump(pcnt, ClientPollKey("unknown", "denied")), ClientPollKey("unrestricted", "denied"))
       ELSE UNCHANGED <<cnt, pcnt>>)
-  /\ UNCHANGED vars /\ UNCHANGED <<ips, jadds>> /\ Adv
+  /\ UNCHANGED vars /\ UNCHANGED <<ips, jadds, nats>> /\ Adv
 
 TNext ==
   \/ TReset \/ TAdd \/ TMatch \/ TOfferGate \/ TSent \/ TWOffer \/ TForwarded \/ TGot
